@@ -1,33 +1,40 @@
----- MODULE StickyTrace ----
+---------------------------------- MODULE StickyTrace ----------------------------------
+(* Batch trace validation for Sticky: every recorded real execution must be a behaviour of Sticky!Spec.
+   Trace file (IOEnv.TRACE_FILE): JSON array of traces; a trace = [kinds |-> [thread |-> kind], expires,
+   ev |-> <<[e, t, label, nclose, dbegin, dend], ...>>].  One event per scheduler step (sched.step(t)) or Tick.
+   Logged per step: the park label the real thread reached (must equal the label of pc'[t]), how many close
+   hooks began, whether a dispatch began / ended.  Everything else is inferred by Sticky's own actions.
+   Registers: tid -> furthest event index matched; 1000+tid -> set of property clauses violated on the way. *)
 EXTENDS Sticky, Json, IOUtils, Sequences, TLCExt
-Traces == JsonDeserialize(IOEnv.TRACE_FILE)   \* array of traces; each trace = array of events [e, r]
+Traces == JsonDeserialize(IOEnv.TRACE_FILE)
 VARIABLES tid, l
 tvars == <<vars, tid, l>>
-TraceInit == Init /\ tid \in 1..Len(Traces) /\ l = 1
-Ev == Traces[tid][l]
-IsEvent(e) == l <= Len(Traces[tid]) /\ Ev.e = e /\ l' = l + 1 /\ UNCHANGED tid
-R(x) == CHOOSE r \in Req : ToString(r) = x
-TraceNext ==
-  \/ IsEvent("ReqGet") /\ ReqGet(R(Ev.r)) /\ pc'[R(Ev.r)] = Ev.pc
-  \/ IsEvent("ReqLock") /\ ReqLock(R(Ev.r))
-  \/ IsEvent("ReqUse") /\ ReqUse(R(Ev.r))
-  \/ IsEvent("ReqCloseA") /\ ReqCloseA(R(Ev.r))
-  \/ IsEvent("ReqCloseB") /\ ReqCloseB(R(Ev.r))
-  \/ IsEvent("ReqCloseC") /\ ReqCloseC(R(Ev.r))
-  \/ IsEvent("ReqResponse") /\ ReqResponse(R(Ev.r))
-  \/ IsEvent("DelGet") /\ DelGet
-  \/ IsEvent("DelLock") /\ DelLock
-  \/ IsEvent("DelPop") /\ DelPop
-  \/ IsEvent("DelClose") /\ DelClose
-  \/ IsEvent("DelUnlock") /\ DelUnlock
-  \/ IsEvent("ReaperPop") /\ ReaperPop
-  \/ IsEvent("ReaperClose") /\ ReaperClose
-  \/ IsEvent("Tick") /\ Tick
+
+TThreads(i) == DOMAIN Traces[i].kinds
+Label(p) == CASE p = "init" -> "start" [] p = "get" -> "acq:REG" [] p \in {"lock", "xlock", "hlock"} -> "acq:SES"
+              [] p \in {"reval", "pop"} -> "acq:REG" [] p = "dispatch" -> "dispatch"
+              [] p \in {"hhook", "xhook"} -> "hook" [] p = "done" -> "EXIT" [] OTHER -> "?"
+
+TraceInit == /\ tid \in 1..Len(Traces) /\ l = 1 /\ InitWith(TThreads(tid))
+Ev == Traces[tid].ev[l]
+Consume == l <= Len(Traces[tid].ev) /\ l' = l + 1 /\ UNCHANGED tid
+TraceStep == /\ Consume /\ Ev.e = "Step"
+             /\ \E t \in Threads : /\ t = Ev.t /\ t \in TThreads(tid) /\ Step(t)
+                                   /\ Label(pc'[t]) = Ev.label
+                                   /\ closeCount' - closeCount = Ev.nclose
+                                   /\ (t \in dispatching' /\ t \notin dispatching) = Ev.dbegin
+                                   /\ (t \notin dispatching' /\ t \in dispatching) = Ev.dend
+TraceTick == Consume /\ Ev.e = "Tick" /\ Tick
+TraceNext == TraceStep \/ TraceTick
 TraceSpec == TraceInit /\ [][TraceNext]_tvars
-\* register 1+tid: furthest line consumed for that trace
-Progress == TLCSet(tid, IF TLCGet(tid) < l THEN l ELSE TLCGet(tid))
-Constr == Progress
-ASSUME \A i \in 1..Len(Traces) : TLCSet(i, 0)
-Accepted == \A i \in 1..Len(Traces) :
-   IF TLCGet(i) = Len(Traces[i]) + 1 THEN PrintT(<<"ACCEPT", i>>) ELSE PrintT(<<"REJECT", i, "matched", TLCGet(i) - 1>>)
-====
+
+Bad == {c \in {"Mutex", "CloseAtMostOnce", "NoCloseDuringDispatch", "NoDispatchAfterClose"} :
+          \/ (c = "Mutex" /\ ~Mutex) \/ (c = "CloseAtMostOnce" /\ ~CloseAtMostOnce)
+          \/ (c = "NoCloseDuringDispatch" /\ ~NoCloseDuringDispatch)
+          \/ (c = "NoDispatchAfterClose" /\ ~NoDispatchAfterClose)}
+Track == /\ TLCSet(tid, IF TLCGet(tid) < l THEN l ELSE TLCGet(tid))
+         /\ TLCSet(1000 + tid, TLCGet(1000 + tid) \cup Bad)
+ASSUME \A i \in 1..Len(Traces) : TLCSet(i, 0) /\ TLCSet(1000 + i, {})
+Verdicts == \A i \in 1..Len(Traces) :
+   PrintT("@@J@@" \o ToJson([tid |-> i, matched |-> TLCGet(i) - 1, len |-> Len(Traces[i].ev), bad |-> TLCGet(1000 + i)]))
+==========================================================================================
